@@ -33,11 +33,13 @@ MANIFEST = dict(
          "trace acceptance; pthread/sigwait semantics modelled, not verified; scheduler granularity = wrapped calls "
          "(plain memory races between _cancel_pending_threads and _update_connect_state are below it); asynchronous "
          "delivery inside libc, exit() racing with threads holding a stdio lock, deferred pthread_cancel and _wdog on the "
-         "freed t[] are outside the model; open finding F20-LOSTCANCEL (a created-but-not-yet-connecting host that ^C^Z "
-         "reports as canceled runs anyway); harness, gcc, ASan/UBSan trusted")
+         "freed t[] are outside the model; the form of the worker's first state write (blind as pinned = finding "
+         "F20-LOSTCANCEL: a created-but-not-yet-connecting host that ^C^Z reports as canceled runs anyway; guarded = "
+         "repaired) is probed by behaviour on every run and model, acceptor and theorems cover both; harness, gcc, "
+         "ASan/UBSan trusted")
 
 
 def run(ctx):
-    variant, cov = sigrun.run(ctx, PROPS, LEVEL)
-    return ctx.finish(LEVEL, cov, assumptions=sigrun.assumptions(variant), trusted_base=sigrun.TRUSTED,
+    variant, wform, cov = sigrun.run(ctx, PROPS, LEVEL)
+    return ctx.finish(LEVEL, cov, assumptions=sigrun.assumptions(variant, wform), trusted_base=sigrun.TRUSTED,
                       checker_cmd="lake build PdshVerif.Props.C20 && #print axioms on every theorem of Props/C20.lean")
